@@ -129,6 +129,43 @@ pub fn run(r: &mut Report) {
             r.case(&format!("naive-statement-carries-link-{}", id), json!({"env": env}), "all link fields unchanged", format!("{:?}", got.map(|g| g["env"].clone())), ok);
         }
     }
+    // the same for BOTH statement versions and for awkward artifact sets (no products, a product without any digest, two algorithms)
+    {
+        use in_toto::crypto::{HashAlgorithm, HashValue};
+        use in_toto::models::{LinkMetadataBuilder, byproducts::ByProducts, step::Command, TargetDescription, VirtualTargetPath};
+        let td = |v: Vec<(HashAlgorithm, u8, usize)>| -> TargetDescription { v.into_iter().map(|(a, b, n)| (a, HashValue::new(vec![b; n]))).collect() };
+        let sets: Vec<(&str, Vec<(&str, TargetDescription)>)> = vec![
+            ("no-products", vec![]),
+            ("one-product", vec![("p", td(vec![(HashAlgorithm::Sha256, 2, 32)]))]),
+            ("product-without-digest", vec![("p", td(vec![(HashAlgorithm::Sha256, 2, 32)])), ("nodigest", td(vec![]))]),
+            ("two-algorithms", vec![("p", td(vec![(HashAlgorithm::Sha256, 2, 32), (HashAlgorithm::Sha512, 3, 64)]))]),
+            ("odd-names", vec![("dir/sp ace", td(vec![(HashAlgorithm::Sha256, 1, 32)])), (".dot", td(vec![(HashAlgorithm::Sha256, 1, 32)])), ("\u{e9}", td(vec![(HashAlgorithm::Sha256, 1, 32)]))]),
+        ];
+        for (id, prods) in sets {
+            let meta = LinkMetadataBuilder::new().name("build".to_string())
+                .materials(prods.iter().map(|(p, t)| (VirtualTargetPath::new(format!("m-{}", p)).unwrap(), t.clone())).collect())
+                .products(prods.iter().map(|(p, t)| (VirtualTargetPath::new(p.to_string()).unwrap(), t.clone())).collect())
+                .byproducts(ByProducts::new().set_return_value(3).set_stderr("e".into())).command(Command::from("make all")).build().unwrap();
+            let link_json = serde_json::to_value(&meta).unwrap();
+            for ver in [StatementVer::Naive, StatementVer::V0_1] {
+                let pred_json = json!({"name": link_json["name"], "materials": link_json["materials"], "env": link_json["environment"], "command": link_json["command"], "byproducts": link_json["byproducts"]});
+                let mk = || -> Option<Box<dyn in_toto::models::PredicateLayout>> { match ver { StatementVer::Naive => None,
+                    StatementVer::V0_1 => serde_json::from_str::<PredicateWrapper>(&pred_json.to_string()).ok().map(|p| p.into_trait()) } };
+                let st = no_panic(|| StatementWrapper::from_meta(meta.clone(), mk(), ver));
+                let got: Option<Value> = st.ok().and_then(|s| s.into_trait().to_bytes().ok()).and_then(|b| serde_json::from_slice(&b).ok());
+                let ok = match (&got, ver) {
+                    (Some(g), StatementVer::Naive) => g["name"] == link_json["name"] && g["materials"] == link_json["materials"] && g["products"] == link_json["products"]
+                        && g["command"] == link_json["command"] && g["byproducts"] == link_json["byproducts"],
+                    (Some(g), StatementVer::V0_1) => g["subject"] == link_json["products"] && g["predicate"] == pred_json,
+                    _ => false };
+                // and what was built parses back to an equal statement
+                let reparse_ok = match &got { Some(g) => { let a: Result<StatementWrapper, _> = serde_json::from_str(&g.to_string());
+                    matches!((&a, no_panic(|| StatementWrapper::from_meta(meta.clone(), mk(), ver))), (Ok(x), Ok(y)) if *x == y) }, None => false };
+                r.case("statement-carries-link", json!({"artifacts": id, "version": format!("{:?}", ver)}), "name, materials, products/subject, command, byproducts unchanged; parses back equal",
+                       format!("carried={} reparse_equal={} doc={}", ok, reparse_ok, got.map(|g| g.to_string()).unwrap_or_default().chars().take(300).collect::<String>()), ok && reparse_ok);
+            }
+        }
+    }
     // a v0.1 statement whose declared predicateType does not name the predicate it contains must be rejected
     for (declared, _) in preds.iter() {
         for (actual, doc) in preds.iter() {
